@@ -296,11 +296,15 @@ func sample(c Case) any {
 }
 
 var subEnum = vk.Register(&vk.Sub[Case]{Name: "enum", Check: check, NonTrivial: nonTrivial, Sample: sample})
+var subCoords = vk.Register(&vk.Sub[Case]{Name: "coords", Check: check, NonTrivial: nonTrivial, Labels: labels, Sample: sample})
 var subRandom = vk.Register(&vk.Sub[Case]{Name: "random", Gen: gen, Check: check, NonTrivial: nonTrivial, Labels: labels, Sample: sample})
 
 func gen(t *rapid.T) Case {
 	alpha := rapid.SampledFrom([]string{"ACGT", "ACGT", "acgt", ref.IUPACCodes, "ACGTRYKMNacgtn"}).Draw(t, "alphabet")
 	c := Case{Parent: vk.DrawSeq(t, "parent", alpha, 1, 2000)}
+	if rapid.IntRange(0, 3).Draw(t, "long_parent") == 0 { // coordinates with three and four digits
+		c.Parent = vk.SeqSpec{Fill: rapid.Uint64().Draw(t, "parent_fill"), N: rapid.IntRange(900, 2000).Draw(t, "parent_len"), Alpha: alpha}
+	}
 	n := len(c.Parent.String())
 	c.Loc = insdc.Draw(t, "loc", n, rapid.IntRange(0, 4).Draw(t, "max_depth"))
 	c.InRecord = rapid.IntRange(0, 3).Draw(t, "in_record") == 0
@@ -308,6 +312,41 @@ func gen(t *rapid.T) Case {
 }
 
 func TestSub_random(t *testing.T) { vk.RunRapid(t, subRandom) }
+
+// TestSub_coords puts every coordinate 1..2000 of a 2000-base parent in every role: single base,
+// span start, span end, first and last operand of a join, under a complement, with partial markers.
+func TestSub_coords(t *testing.T) {
+	const n = 2000
+	parent := vk.SeqSpec{Fill: vk.Seed(), N: n, Alpha: "ACGTacgtRYN"}
+	vk.RunEnum(t, subCoords, "every coordinate 1..2000 of a 2000-base parent as single base, span start and span end, alone, complemented, in joins and with partial markers", true, func(yield func(Case) bool) {
+		for p := 1; p <= n; p++ {
+			lo, hi := max(1, p-7), min(n, p+7)
+			p5 := insdc.Span(p, hi)
+			p5.P5 = true
+			p3 := insdc.Span(lo, p)
+			p3.P3 = true
+			other := insdc.Span(max(1, (p*7)%n), min(n, (p*7)%n+30))
+			locs := []insdc.Node{
+				insdc.Single(p),
+				insdc.Span(p, hi),
+				insdc.Span(lo, p),
+				insdc.Span(1, p),
+				insdc.Span(p, n),
+				insdc.Complement(insdc.Span(lo, p)),
+				insdc.Join(insdc.Span(p, hi), other),
+				insdc.Join(other, insdc.Complement(insdc.Join(insdc.Span(lo, p), insdc.Single(hi)))),
+				p5,
+				insdc.Complement(p5),
+				insdc.Join(other, p3),
+			}
+			for i, l := range locs {
+				if !yield(Case{Parent: parent, Loc: l, InRecord: (p+i)%16 == 0}) {
+					return
+				}
+			}
+		}
+	})
+}
 
 func TestSub_enum(t *testing.T) {
 	maxOps, maxLeaves := vk.Pick(2, 3), vk.Pick(3, 4)
